@@ -224,6 +224,12 @@ pub struct LspRun {
 /// Runs `ironplcc lsp --stdio` on a complete script (all messages written, stdin closed) and
 /// collects everything the server wrote.  The script should end with shutdown + exit.
 pub fn lsp_run(messages: &[Value]) -> LspRun {
+    lsp_run_limit(messages, 90)
+}
+
+/// the same with another wall-clock limit (a second, longer attempt tells a slow machine from a
+/// server that has stopped for good)
+pub fn lsp_run_limit(messages: &[Value], limit_secs: u64) -> LspRun {
     let mut input = vec![];
     for m in messages {
         input.extend(frame(m));
@@ -256,7 +262,7 @@ pub fn lsp_run(messages: &[Value]) -> LspRun {
         match child.try_wait() {
             Ok(Some(st)) => break st.code(),
             Ok(None) => {
-                if start.elapsed() > Duration::from_secs(90) {
+                if start.elapsed() > Duration::from_secs(limit_secs) {
                     let _ = child.kill();
                     timed_out = true;
                     break child.wait().ok().and_then(|s| s.code());
@@ -303,7 +309,9 @@ pub fn lsp_semantic_tokens(id: Value, uri: &str) -> Value {
 /// in letter case (distinct files on a case-sensitive file system, distinct documents for a
 /// project): a set must never lose a file because its name "equals" another one ignoring case.
 pub fn set_file_name(i: usize) -> String {
-    const NAMES: &[&str] = &["unit.st", "Unit.st", "other.st", "UNIT.st", "Other.st", "unit.ST", "third.st", "OTHER.st"];
+    // (also names without the usual extension: what is given - or lies in a given directory - is a
+    // source file whatever it is called)
+    const NAMES: &[&str] = &["unit.st", "Unit.st", "types", "UNIT.st", "prog.txt", "unit.ST", "third.iec", "OTHER.st"];
     if i < NAMES.len() {
         NAMES[i].to_string()
     } else {
